@@ -5,7 +5,7 @@ import sys
 import time
 import traceback
 
-from .loader import Repo, norm_stmt
+from .loader import Repo, load_repo, norm_stmt
 
 VERIF = os.path.dirname(os.path.dirname(os.path.abspath(__file__)))
 HOLDS, VIOLATED, UNDECIDED = "HOLDS", "VIOLATED", "UNDECIDED"
@@ -121,7 +121,7 @@ def run_property(prop, checker, meta, repo_root, tier, evidence_dir=None, quiet=
     ctx = None
     error = None
     try:
-        repo = Repo(repo_root)
+        repo = load_repo(repo_root)
         ctx = Ctx(repo, prop, tier)
         ctx.floor("modules", len(repo.mods), 80, hard=True)
         checker(ctx)
@@ -231,7 +231,10 @@ def _normal_form_summary(ctx):
     nz = getattr(getattr(ctx, "repo", None), "normalizer", None) if ctx else None
     if nz is None:
         return {}
+    from . import loader as _loader
     return {
+        "source_digest": _loader.CACHE_INFO.get("digest"),
+        "normal_form_of_this_tree": _loader.CACHE_INFO.get("state"),
         "rule": "new helpers/constants (not in reference/inventory.json) are inlined; spelling, alias and shape passes applied to every function",
         "helpers_inlined": sorted({f"{h} -> {f}" for f, h, _ in nz.log})[:60],
         "helpers_removed_after_inlining": list(getattr(nz, "dropped", []))[:60],
